@@ -115,14 +115,18 @@ class ScriptedApi:
         self.patience = 20          # seconds (real, or virtual under VirtualLoop) after which a call on scripted streams counts as never returning
         w = MagicMock(); r = MagicMock()
         w.write = lambda b: self.frames.append(bytes(b).hex())
+        self.pending = b""
         async def read(n):
-            return self.script.pop(0) if self.script else b""
+            # a byte stream: what a read(n) does not take stays for the next read; each scripted reply arrives as one chunk
+            if not self.pending: self.pending = self.script.pop(0) if self.script else b""
+            out, self.pending = self.pending[:n], self.pending[n:]
+            return out
         r.read = read
         self.api._writer = w; self.api._reader = r
 
     async def run(self, kind, args, replies, now):
         """-> canonical text: every written frame in hex followed by '|', then the outcome"""
-        self.frames.clear(); self.script[:] = list(replies)
+        self.frames.clear(); self.script[:] = list(replies); self.pending = b""
         try:
             if self.hung: raise asyncio.TimeoutError()          # an earlier call on this object never returned: no point in waiting again
             with time_machine.travel(float(now), tick=False):
@@ -165,7 +169,9 @@ class SlowApi(ScriptedApi):
         async def read(n):
             d = self.delays.pop(0) if self.delays else 0
             if d: await asyncio.sleep(d)
-            return self.script.pop(0) if self.script else b""
+            if not self.pending: self.pending = self.script.pop(0) if self.script else b""
+            out, self.pending = self.pending[:n], self.pending[n:]
+            return out
         self.api._reader.read = read
 
 
@@ -186,7 +192,7 @@ def rand_bytes(rnd, n): return bytes(rnd.randrange(256) for _ in range(n))
 
 def login_reply(rnd, session=None):
     sess = session if session is not None else rnd.choice([rand_bytes(rnd, 4)] * 6 + [b"\x12\xfe\xf0\x34", b"\xfe\xf0\xfe\xf0", b"\0\0\0\0", b"\0" + rand_bytes(rnd, 3)])
-    tail = bytearray(rand_bytes(rnd, rnd.choice([0, 12, 20, rnd.randrange(0, 60)])))
+    tail = bytearray(rand_bytes(rnd, rnd.choice([0, 12, 20, rnd.randrange(0, 60), rnd.randrange(0, 60), rnd.choice([52, 53, 116, 117, 500, 1012])])))     # up to one read of 1024 bytes
     if len(tail) >= 2 and rnd.random() < .2:         # the frame magic may occur anywhere in a reply (a signature, a counter)
         k = rnd.randrange(len(tail) - 1); tail[k:k + 2] = b"\xfe\xf0"
     head = rnd.choice([rand_bytes(rnd, 8)] * 3 + [b"\xfe\xf0" + rand_bytes(rnd, 6)])
